@@ -2,6 +2,7 @@
 import Compio.Model.View
 import Compio.Model.ViewVec
 import Compio.Model.ViewOps
+import Compio.Model.ViewAppend
 
 open Compio Compio.View
 
@@ -49,6 +50,7 @@ inductive St where
   | vec (v : VBuf) (nest : Bool)
   | ro (v : Buf) (reader : Bool)
   | viter (it : VIter) (nest : Bool)
+  | pool (p : Compio.Pool.PBuf)
 
 /-- constructors consume the buffer: a panic leaves nothing; other faults leave the state as it was -/
 def viewOp (v : Buf) (consuming : Bool) (r : Res Buf) : St × String :=
@@ -144,6 +146,10 @@ def bufOp (v : Buf) (w : List String) : St × String :=
   | ["fill", h] =>
     match parseHex h with
     | some d => viewOp v false (v.step (.fill d))
+    | none => (.buf v false, "bad-op")
+  | ["fillapp", h] =>
+    match parseHex h with
+    | some d => viewOp v false (v.fillAdv d)
     | none => (.buf v false, "bad-op")
   | ["setlen", n] =>
     match n.toNat? with
@@ -481,6 +487,33 @@ def viterOp (it : VIter) (nest : Bool) (w : List String) : St × String :=
   | ["iinner"] => (.vec it.buf nest, showV it.buf)
   | _ => (.viter it nest, "bad-op")
 
+def showPool (p : Compio.Pool.PBuf) : String :=
+  s!"i={p.asInit.1}+{p.asInit.2} u={p.asUninit.1}+{p.asUninit.2} m={hexOf p.mem}"
+
+def poolRes (p : Compio.Pool.PBuf) (r : Res Compio.Pool.PBuf) : St × String :=
+  match r with
+  | .ok p' => (.pool p', showPool p')
+  | .error f => (.pool p, showFault f)
+
+/-- pool buffers (`BufferRef`): same op lines as harness/pure/src/bin/c10/pool.rs -/
+def poolOp (p : Compio.Pool.PBuf) (w : List String) : St × String :=
+  let natOp (n : String) (f : Nat → Compio.Pool.Op) : St × String :=
+    match n.toNat? with
+    | some n => poolRes p (p.step (f n))
+    | none => (.pool p, "bad-op")
+  match w with
+  | ["psetlen", n] => natOp n .setLen
+  | ["padvto", n] => natOp n .advanceTo
+  | ["padv", n] => natOp n .advance
+  | ["pclear"] => poolRes p (p.step .clear)
+  | ["psetcap", c] => natOp c .setCap
+  | ["pwithcap", c] => natOp c .setCap
+  | ["pfill", h] =>
+    match parseHex h with
+    | some d => poolRes p (p.step (.fill d))
+    | none => (.pool p, "bad-op")
+  | _ => (.pool p, "bad-op")
+
 def step (st : St) (line : String) : St × String :=
   if line.startsWith "#case" then (.none, line.trimAscii.toString) else
   let w := words line
@@ -500,6 +533,12 @@ def step (st : St) (line : String) : St × String :=
       | .ok s => (st, "sb " ++ contentOf s)
       | .error f => (st, showFault f)
     | _, _, _ => (st, "bad-op")
+  | ["pool", full, h] =>
+    match full.toNat?, parseHex h with
+    | some full, some mem =>
+      if full = 0 ∨ full > 4096 ∨ mem.length ≠ full then (.none, "bad-op")
+      else (.pool ⟨0, full, mem⟩, showPool ⟨0, full, mem⟩)
+    | _, _ => (.none, "bad-op")
   | ["root", k, len, h] =>
     match parseRootSpec k len h with
     | some r => (.buf (.root r) false, showBuf (.root r))
@@ -518,6 +557,7 @@ def step (st : St) (line : String) : St × String :=
     | .ro v rd => roOp v rd w
     | .vec v nest => vecOp v nest w
     | .viter it nest => viterOp it nest w
+    | .pool p => poolOp p w
 
 end C10
 
